@@ -358,15 +358,58 @@ fn gen_degenerate_cycles(g: &mut Gen) {
     }
 }
 
+/// Re-emits every case generated since line `from` a second time, each preceded — on every one of
+/// its tapes — by a much larger computation (a variable, `steps` chained operations, `derivs`)
+/// that is then cleared: the tape's and the derivative vector's allocations are larger than
+/// anything the case itself needs (`Vec::from(derivatives).len()` is the `len=` of every `derivs`
+/// answer; positions restart at 0).
+fn replay_after_larger(g: &mut Gen, from: usize, steps: usize) {
+    let cases: Vec<String> = g.lines[from..].to_vec();
+    let mut serial = 0usize;
+    for line in cases {
+        if line.starts_with('#') {
+            continue;
+        }
+        if !line.starts_with("@ tapes") {
+            g.op(line);
+            continue;
+        }
+        let ntapes: usize = line.split_whitespace().nth(2).and_then(|s| s.parse().ok()).unwrap_or(1);
+        g.count("c15.after_larger_cleared.cases");
+        g.op(line);
+        for t in 0..ntapes {
+            serial += 1;
+            let v = g.rng.next() % crate::exact::P;
+            g.op(format!("var q{}n0 {} t={} via=record", t, v, t));
+            for j in 1..=steps {
+                let prev = format!("q{}n{}", t, j - 1);
+                let l = match (j + serial) % 4 {
+                    0 => format!("mul q{}n{} {} {} via=ref_ref", t, j, prev, prev),
+                    1 => format!("addn q{}n{} {} 3 via=ref_val", t, j, prev),
+                    2 => format!("sin q{}n{} {} via=ref", t, j, prev),
+                    _ => format!("sum q{}n{} {},{},q{}n0", t, j, prev, prev, t),
+                };
+                g.op(l);
+            }
+            g.op(format!("derivs q{}n{} via=vec", t, steps));
+            g.op(format!("clear t={}", t));
+        }
+    }
+}
+
 pub fn gen(g: &mut Gen) {
+    let from = g.lines.len();
     gen_degenerate_cycles(g);
     gen_systematic(g);
     gen_large15(g);
     gen_degenerate(g, "c15", "@ tapes 1", "", Kind::Fp);
-    let n = if g.thorough { 20000 } else { 800 };
+    gen_matrix(g, "c15", "@ tapes 1", "", Kind::Fp);
+    let n = if g.thorough { 10000 } else { 500 };
     for _ in 0..n {
         gen_case(g);
     }
+    // every case once more, on tapes that previously held a much larger, cleared computation
+    replay_after_larger(g, from, 120);
 }
 
 // ---------------------------------------------------------------------------------------------
